@@ -393,6 +393,28 @@ def lookup_part(job, r):
             q = c('pubfilelookup 0 0 bystring %s' % R.pub_string(t, h))
             if q.get('found') != '1' or int(q['time']) != t or bytes.fromhex(q['hash']) != h:
                 r.viol('lookup:bystring:differs', 'publication string of an existing publication not found', '')
+        # look-up by record (time AND hash): every record of the file is found as itself - also when several records share its time -, and a record
+        # with the time of one of them and another hash, or with a time the file does not have, is not found
+        queries = [(t, h, True) for t, h in pubs] + [(t, gen.rnd_imprint(rng, 1), False) for t, h in pubs[:3]] + [(base - 7, gen.rnd_imprint(rng, 1), False)]
+        for t, h, present in queries:
+            q = c('pubfilelookup 0 0 byrecord %s' % R.pub_string(t, h))
+            found = q.get('found') == '1'
+            tie = times.count(t) > 1
+            r.observe(('byrecord', present, found, tie))
+            r.count('lookups')
+            r.count('lookups_by_record_%s' % ('tie' if tie else 'single' if present else 'absent'))
+            if q.rc != 0:
+                r.viol('lookup:byrecord:error', 'lookup rc=%#x' % q.rc, 'query=(%d, %s) pubs=%s' % (t, h.hex(), [(a, b.hex()) for a, b in pubs]))
+            elif found != present or (found and (int(q['time']), bytes.fromhex(q['hash'])) != (t, h)):
+                r.viol('lookup:byrecord:%s:%s' % ('tie' if tie else 'single', 'not-found' if present and not found else 'phantom' if found and not present else 'other-record'),
+                       'findPublication(%d, %s...) -> %s; the file %s this record' % (t, h.hex()[:16], (q.get('time'), q.get('hash', '')[:16]) if found else 'nothing', 'has' if present else 'does not have'),
+                       'query=(%d, %s) pubs=%s' % (t, h.hex(), [(a, b.hex()) for a, b in pubs]))
+        for t in sorted(set(times))[:4] + [base - 7]:
+            q = c('pubfilelookup 0 0 findbytime %d' % t)
+            found = q.get('found') == '1'
+            r.count('lookups')
+            if q.rc != 0 or found != (t in times) or (found and (int(q['time']), bytes.fromhex(q['hash'])) not in pubs) or (found and int(q['time']) != t):
+                r.viol('lookup:findbytime:differs', 'findPublicationByTime(%d) rc=%#x -> %s' % (t, q.rc, (q.get('time'), q.get('hash', '')[:16]) if found else 'nothing'), 'pubs=%s' % [(a, b.hex()) for a, b in pubs])
         q = c('pubfilelookup 0 0 bystring %s' % R.pub_string(base - 5, gen.rnd_imprint(rng, 1)))
         if q.get('found') == '1':
             r.viol('lookup:bystring:phantom', 'publication string of an absent publication found', '')
@@ -438,4 +460,4 @@ def run(ctx):
     c = ctx.counters
     if not ctx.violations and not ctx.known_printed:
         ctx.require(c.get('valid_files_trusted', 0) >= 20 and c.get('verify_trusted', 0) >= 10 and c.get('verify_untrusted', 0) >= 50, 'trusted and untrusted verdicts observed')
-        ctx.require(c.get('flip_signed-range_untrusted', 0) >= 150 and c.get('lookups', 0) >= 1000, 'byte changes and lookups executed')
+        ctx.require(c.get('flip_signed-range_untrusted', 0) >= 150 and c.get('lookups', 0) >= 1000 and c.get('lookups_by_record_tie', 0) >= 20, 'byte changes and lookups executed')
